@@ -380,8 +380,16 @@ func judgeObligations(m *Model, seqs map[seqKey][]*Attempt, sendResolvedOf func(
 						}
 					}
 					if !found {
+						// fact for C06 ("never a delta"): a notification of the same group went to this integration after the
+						// resolution, from a flush that began after it, and leaves the owed resolution out
+						delta := false
+						for _, b := range s {
+							if b.OK() && b.Flush.After(r) && !b.Done.After(end) {
+								delta = true
+							}
+						}
 						add(pbt.V("resolved-not-reported", "%v: %s was reported firing at %s, resolved at %s and stayed resolved and unsuppressed; %s/%d accepted deliveries from %s, but no notification listing it as resolved was delivered by %s (max(group_wait, group_interval) %s + %s)",
-							k, mk, p.Done.Format(tf), r.Format(tf), k.Receiver, k.Idx, u.Format(tf), end.Format(tf), maxDur(rt.GroupWait, rt.GroupInterval), deliverySlack).With("key", mk))
+							k, mk, p.Done.Format(tf), r.Format(tf), k.Receiver, k.Idx, u.Format(tf), end.Format(tf), maxDur(rt.GroupWait, rt.GroupInterval), deliverySlack).With("key", mk).With("later_notification_omits_it", delta))
 					}
 				}
 			}
